@@ -32,7 +32,7 @@ def run(tier):
     go(san, [["--mode", "c13sched", "--shard", 100 + i, "--seed", seed, "--steps", steps // 20] for i in range(N)],
        "rec", "c13sched(san)")
     go(san, [["--mode", "c13pairs", "--shard", "%d/%d" % (i * 257 % 4096, 4096)] for i in range(N)], "rec", "c13pairs(san)")
-    if tot.get("c13.pairs", 0) < 65536 * 1000 or tot.get("c13.sched_reads", 0) < 10000:
+    if tot.get("c13.pairs", 0) < 65536 * 1000 or tot.get("c13.sched_reads", 0) < 10000 or tot.get("c13.loop_poller_schedules_longer_than_16_bits", 0) < 500:
         v.inconclusive_because("deciding counters too low: %r" % tot)
     v.coverage.update({
         "evaluations": tot.get("c13.pairs", 0) + tot.get("c13.sched_reads", 0) + tot.get("c13.sched_sets", 0),
